@@ -1007,3 +1007,229 @@ func ruleRelaySync(r *Run) {
 		r.Floor("C6", "dequeue-and-write iterations", n, 1)
 	}
 }
+
+// ruleIDSources (D5): every id the server hands out comes from a SequentialIDGenerator of the
+// right scope (store: session ids; session: participant and entity ids; odal state: asset ids).
+func ruleIDSources(r *Run) {
+	if r.broken() {
+		return
+	}
+	for _, q := range []struct{ fn, gen string }{
+		{"models.(*Session).NewParticipantID", "recv.participantIDs"},
+		{"models.(*Session).NewEntityID", "recv.entityIDs"},
+		{"models.(*SessionStore).NewID", "recv.ids"},
+		{"modules/odal.(*State).NewAssetInstanceID", "recv.assetInstanceIDs"},
+	} {
+		fn := r.modelFunc(q.fn)
+		if fn == nil {
+			continue
+		}
+		r.Analysed(fn, 1)
+		for _, path := range r.Paths(fn) {
+			ret := r.retCanon(fn, &path)
+			r.CheckT("D5", fn.Name+":source", len(ret) == 1 && ret[0] == q.gen+".call:SequentialIDGenerator.New()", fn.Body.Pos(), &path,
+				"%s hands out the next id of its own generator %s (returns %v)", fn.Name, q.gen, ret)
+		}
+	}
+	// the generators are distinct fields (no sharing between id spaces)
+	// where the ids go
+	m := r.M()
+	n := 0
+	for _, hi := range m.Handlers {
+		fn := hi.Fn
+		info := fn.Info()
+		ast.Inspect(fn.Body, func(nd ast.Node) bool {
+			cl, ok := nd.(*ast.CompositeLit)
+			if !ok {
+				return true
+			}
+			pk, tn := litTypeName(info, cl)
+			if pk != "models" {
+				return true
+			}
+			holder := fn
+			switch tn {
+			case "Participant":
+				n++
+				c := r.P.Canon(holder, litField(cl, "ID"))
+				r.Check("D5", fn.Name+":participant-id", strings.HasSuffix(c, ".call:Session.NewParticipantID()") && strings.HasPrefix(c, "local:session"), cl.Pos(), "a new participant gets the next participant id of the session it joins (%s)", c)
+			case "Entity":
+				n++
+				c := r.P.Canon(holder, litField(cl, "ID"))
+				r.Check("D5", fn.Name+":entity-id", c == "recv.currentSession.call:Session.NewEntityID()", cl.Pos(), "a new entity gets the next entity id of the caller's session (%s)", c)
+				o := r.P.Canon(holder, litField(cl, "ParticipantID"))
+				r.Check("D2", fn.Name+":entity-owner", o == "recv.currentParticipant.ID", cl.Pos(), "a new entity is owned by the participant that asked for it (%s)", o)
+			}
+			return true
+		})
+		// NewSession(h.Sessions.NewID(), ...)
+		ast.Inspect(fn.Body, func(nd ast.Node) bool {
+			call, ok := nd.(*ast.CallExpr)
+			if !ok {
+				return true
+			}
+			if f, _ := calleeObj(info, call).(*types.Func); f != nil && funcName(f) == "models.NewSession" {
+				n++
+				c := r.P.Canon(fn, call.Args[0])
+				r.Check("D5", fn.Name+":session-id", c == "recv.Sessions.call:SessionStore.NewID()", call.Pos(), "a new session gets the next session id of the registry (%s)", c)
+			}
+			return true
+		})
+	}
+	r.Floor("D5", "id-carrying constructions in handlers", n, 3)
+	// D2: owner and identity fields are never assigned after construction
+	for _, q := range []struct{ typ, field string }{{"Entity", "ParticipantID"}, {"Entity", "ID"}, {"Entity", "Persist"}, {"Participant", "ID"}, {"Session", "ID"}, {"Session", "SessionUUID"}} {
+		fv := r.P.LookupField(pkgModels, q.typ, q.field)
+		if fv == nil {
+			r.Undecide("D2", "field %s.%s not found", q.typ, q.field)
+			continue
+		}
+		for _, fn := range r.P.All {
+			info := fn.Info()
+			ast.Inspect(fn.Body, func(nd ast.Node) bool {
+				var lhs []ast.Expr
+				switch s := nd.(type) {
+				case *ast.AssignStmt:
+					lhs = s.Lhs
+				case *ast.IncDecStmt:
+					lhs = []ast.Expr{s.X}
+				}
+				for _, l := range lhs {
+					if se, ok := ast.Unparen(l).(*ast.SelectorExpr); ok {
+						if sel, ok := info.Selections[se]; ok && sel.Obj() == fv {
+							r.Check("D2", fmt.Sprintf("%s:assigns[%s.%s]", fn.Name, q.typ, q.field), false, l.Pos(), "%s.%s is assigned after construction: identity and ownership must never change", q.typ, q.field)
+						}
+					}
+				}
+				return true
+			})
+		}
+		r.Check("D2", q.typ+"."+q.field+":immutable", true, fv.Pos(), "no assignment to %s.%s anywhere in the repository (set only in the creating literal)", q.typ, q.field)
+	}
+	// Participant.AddEntity is only given the entity just created by the same handler
+	addE := r.P.LookupFunc(pkgModels, "Participant", "AddEntity")
+	for _, c := range r.callersOf(addE) {
+		for _, path := range r.Paths(c) {
+			for _, ev := range path.Events {
+				if ev.Kind == EvCall && ev.Callee == addE {
+					rc, ac := r.P.Canon(c, ev.Recv), r.P.Canon(c, ev.Call.Args[0])
+					r.CheckT("D2", c.Name+":own-entity-bookkeeping", rc == "recv.currentParticipant" && strings.HasPrefix(ac, "&lit:models.Entity@"), ev.Pos, &path,
+						"only the entity a participant has just created is entered into its own entity list (receiver %s, entity %s)", rc, ac)
+				}
+			}
+		}
+	}
+}
+
+// ruleRegistry (E7): the session registry maps the global id of a session to that session, exactly.
+func ruleRegistry(r *Run) {
+	if r.broken() {
+		return
+	}
+	key := func(arg string) string { return "recv.call:SessionStore.GlobalSessionID(" + arg + ")" }
+	if fn := r.modelFunc("models.(*SessionStore).GetByGlobalID"); fn != nil {
+		r.Analysed(fn, 1)
+		for _, path := range r.Paths(fn) {
+			ret := r.retCanon(fn, &path)
+			ok := len(ret) == 2 && ret[0] == "recv.sessions[param:v]" && ret[1] == "recv.sessions[param:v]#1"
+			r.CheckT("E7", fn.Name+":verbatim-lookup", ok, fn.Body.Pos(), &path,
+				"a session is found under exactly the id that was asked for, nothing else (returns %v): ids that merely resemble a live session's id must not resolve", ret)
+		}
+	}
+	gaugeInc := r.P.LookupFunc(pkgModels, "", "instrumentIncreaseSessionGauge")
+	gaugeDec := r.P.LookupFunc(pkgModels, "", "instrumentDecreaseSessionGauge")
+	if fn := r.modelFunc("models.(*SessionStore).Add"); fn != nil {
+		r.Analysed(fn, 1)
+		for _, path := range r.Paths(fn) {
+			held := r.locksAlong(&path, lockset{})
+			ops := r.mapOps(fn, &path)
+			okW := len(ops) == 1 && ops[0].Kind == "write" && ops[0].Map == "recv.sessions" && ops[0].Key == key("param:session.ID") && ops[0].Val == "param:session"
+			r.CheckT("E7", fn.Name+":insert", okW, fn.Body.Pos(), &path, "Add registers the session under its own global id")
+			iInc := idxOfCall(&path, gaugeInc, 0)
+			okG := iInc >= 0 && len(ops) == 1 && held[iInc]["SessionStore.mutex"] == "W" && held[ops[0].Idx]["SessionStore.mutex"] == "W"
+			r.CheckT("E7", fn.Name+":gauge-with-insert", okG, fn.Body.Pos(), &path, "the session gauge goes up in the same critical section as the insert")
+			n := 0
+			for _, ev := range path.Events {
+				if ev.Kind == EvCall && ev.Callee == gaugeInc {
+					n++
+				}
+			}
+			r.CheckT("E7", fn.Name+":gauge-once", n == 1, fn.Body.Pos(), &path, "one increment per registered session (%d)", n)
+		}
+	}
+	if fn := r.modelFunc("models.(*SessionStore).Remove"); fn != nil {
+		r.Analysed(fn, 1)
+		reuse := r.P.LookupFunc(pkgModels, "SequentialIDGenerator", "Reuse")
+		closeF := r.P.LookupFunc(pkgModels, "Session", "Close")
+		for _, path := range r.Paths(fn) {
+			held := r.locksAlong(&path, lockset{})
+			ops := r.mapOps(fn, &path)
+			okD := len(ops) == 1 && ops[0].Kind == "delete" && ops[0].Map == "recv.sessions" && ops[0].Key == key("param:session.ID")
+			r.CheckT("E7", fn.Name+":delete", okD, fn.Body.Pos(), &path, "Remove unregisters exactly the session's own global id")
+			iR, iC, iD := idxOfCall(&path, reuse, 0), idxOfCall(&path, closeF, 0), idxOfCall(&path, gaugeDec, 0)
+			all := okD && iR >= 0 && iC >= 0 && iD >= 0
+			if all {
+				for _, i := range []int{ops[0].Idx, iR, iC, iD} {
+					if held[i]["SessionStore.mutex"] != "W" {
+						all = false
+					}
+				}
+				all = all && r.P.Canon(fn, path.Events[iR].Call.Args[0]) == "param:session.ID" && r.P.Canon(fn, path.Events[iR].Recv) == "recv.ids" &&
+					r.P.Canon(fn, path.Events[iC].Recv) == "param:session"
+			}
+			r.CheckT("E7", fn.Name+":one-critical-section", all, fn.Body.Pos(), &path,
+				"unregistering, stopping the frame worker, releasing the session id and lowering the gauge happen in one critical section, for the session handed in")
+		}
+	}
+	if fn := r.modelFunc("models.(*SessionStore).GlobalSessionID"); fn != nil {
+		r.Analysed(fn, 1)
+		for _, path := range r.Paths(fn) {
+			ok := false
+			for _, ev := range path.Events {
+				if ev.Kind == EvReturn && len(ev.Results) == 1 {
+					if call, isCall := ast.Unparen(ev.Results[0]).(*ast.CallExpr); isCall && len(call.Args) == 3 {
+						f, _ := calleeObj(fn.Info(), call).(*types.Func)
+						tv := fn.Info().Types[call.Args[0]]
+						ok = f != nil && f.FullName() == "fmt.Sprintf" && tv.Value != nil && tv.Value.ExactString() == `"%sx%x"` &&
+							r.P.Canon(fn, call.Args[1]) == "recv.DiscoveryService.call:SessionDiscoveryService.ServerID()" && r.P.Canon(fn, call.Args[2]) == "param:sessionID"
+					}
+				}
+			}
+			r.CheckT("E7", fn.Name+":injective", ok, fn.Body.Pos(), &path, "the global id is the server id and the session id in hexadecimal, joined by 'x' (distinct session ids give distinct global ids)")
+		}
+	}
+	// who calls Add / Remove
+	for _, q := range []struct{ fn, caller string }{{"Add", "websocket.(*RealtimeHandler).HandleParticipantJoin"}, {"Remove", "websocket.(*RealtimeHandler).leaveSession"}} {
+		f := r.P.LookupFunc(pkgModels, "SessionStore", q.fn)
+		for _, c := range r.callersOf(f) {
+			if strings.HasPrefix(c.Name, "websocket.newTest") {
+				continue
+			}
+			r.Check("E7", "caller-of-"+q.fn+"["+c.Name+"]", c.Name == q.caller, c.Body.Pos(), "SessionStore.%s is called only from %s", q.fn, q.caller)
+		}
+	}
+	// NewSession: fresh maps, fresh UUID, fresh generators (zero values)
+	if fn := r.modelFunc("models.NewSession"); fn != nil {
+		r.Analysed(fn, 1)
+		for _, path := range r.Paths(fn) {
+			for _, ev := range path.Events {
+				if ev.Kind != EvReturn {
+					continue
+				}
+				lit := r.P.compositeOf(fn, ev.Results[0])
+				ok := lit != nil
+				if ok {
+					for _, f := range []string{"participants", "entities", "moduleStates", "frameHandlers"} {
+						if !strings.HasPrefix(r.P.Canon(fn, litField(lit, f)), "make(") {
+							ok = false
+						}
+					}
+					ok = ok && r.P.Canon(fn, litField(lit, "ID")) == "param:id" && strings.Contains(r.P.Canon(fn, litField(lit, "SessionUUID")), "call:uuid.New()") &&
+						r.P.Canon(fn, litField(lit, "entityComponents")) == "call:models.newEntityComponentStore()" &&
+						litField(lit, "participantIDs") == nil && litField(lit, "entityIDs") == nil
+				}
+				r.CheckT("E7", fn.Name+":fresh", ok, fn.Body.Pos(), &path, "a new session starts with empty collections, its own component store and id generators, and a new UUID (nothing carried over from an earlier session with the same id)")
+			}
+		}
+	}
+}
